@@ -109,6 +109,14 @@ class Fixture:
                 os.symlink(target, mid)
                 target = os.path.basename(mid) if rng.random() < 0.5 else mid
             os.symlink(target, link)
+        # a way of spelling every path of the fixture that only the operating system can resolve:
+        # <base>/hop/via/../<name> with via -> ../sub1, i.e. <base>/<name>; read as text it would be
+        # <base>/hop/<name>, where a decoy file of the same name sits
+        os.mkdir(os.path.join(self.base, b"hop"))
+        os.mkdir(os.path.join(self.base, b"sub1"))
+        os.symlink(os.path.join(b"..", b"sub1"), os.path.join(self.base, b"hop", b"via"))
+        with open(os.path.join(self.base, b"hop", fname), "wb") as f:
+            f.write(b"decoy " + self.file_data[:10])
         self.stdin = bytes(rng.randrange(256) for _ in range(rng.choice([0, 7, 300])))
         self.url = self.default_url = rng.choice(URLS)
         self.repo = os.path.join(self.base, b"repo")
@@ -433,6 +441,12 @@ def check_cases(ctx, cases):
         ctx.count("kind=" + case["kind"])
         kind = case["kind"]
         obj = "-" if kind == "stdin" else (fx.url if kind == "url" else os.fsdecode(fx.path_of(kind)))
+        if kind not in ("stdin", "url"):
+            if "via" not in case:
+                case["via"] = (case["fixture"] + len(canon_key(case))) % 3 == 0
+            if case["via"]:
+                obj = os.fsdecode(os.path.join(fx.base, b"hop", b"via", b"..", os.path.basename(fx.path_of(kind))))
+                ctx.count("path-through-symlink-dotdot")
         args = run_cli(fx, case)
         exp = local_expected(case)
         # the SWHID of the designated object, computed independently of the command
@@ -470,7 +484,7 @@ def check_cases(ctx, cases):
         cls = classify(res_cli)
         out = os.fsdecode(res_cli.stdout_bytes)
         if ctx.tier == "thorough" and ctx.rng.random() < 0.05:
-            rc, so, se = real_command_line(fx, args + (["--verify", verify_arg] if verify_arg else []) + [obj], fx.stdin if kind == "stdin" else None)
+            rc, so, se = real_command_line(fx, args + (["--verify", verify_arg] if verify_arg is not None else []) + [obj], fx.stdin if kind == "stdin" else None)
             ctx.count("real-command-line")
             if rc != res_cli.exit_code or so != res_cli.stdout_bytes:
                 ctx.disagree(case, "in-process runner and the real command line differ", model=[res_cli.exit_code, hx(res_cli.stdout_bytes[:200])], impl=[rc, hx(so[:200])])
